@@ -35,7 +35,7 @@ package writeback
 //@ pred c17Vis(s, w, cs, cw) = s < cs || (s == cs && w <= cw)
 
 //@ fn (*flusher).prepareBlockToFlushList
-//@   property C17
+//@   property C17 C03
 //@   requires f != nil && f.pipeline != nil && f.pipeline.comp != nil
 //@   requires f.pipeline.comp.spec.Log2BlockSize < 64
 //@   requires ref(evl(f)) != ref(fll(f)) || cap(evl(f)) == 0
